@@ -21,7 +21,8 @@ ASSUMPTIONS = [
 
 
 def profile(tier):
-    return {"fault_pct": 10, "max_ops": 40 if tier == "quick" else 60, "min_ops": 3}
+    return {
+        "frac_delays": True,"fault_pct": 10, "max_ops": 40 if tier == "quick" else 60, "min_ops": 3}
 
 
 def profile_fall(tier):
